@@ -1078,17 +1078,17 @@ IIV = st.fixed_dictionaries(
 )
 
 SUBCHECKS = [
-    SubCheck('roundtrip', lambda: st.one_of(G.space('full', 1, 7), G.space('full', 3, 8)), run_roundtrip, quick=5000, thorough=50650),
-    SubCheck('add', lambda: PAIR, run_add, quick=2000, thorough=20260),
-    SubCheck('sub', lambda: PAIR, run_sub, quick=2000, thorough=20260),
-    SubCheck('eq', lambda: PAIR, run_eq, quick=2000, thorough=20260),
-    SubCheck('eq_statement', lambda: PAIR, run_eq_statement, quick=300, thorough=3040),
-    SubCheck('subset_lnt', lambda: PAIR, run_subset, quick=2000, thorough=20260),
-    SubCheck('model_vs_space', lambda: MODEL_SPACE, run_model_vs_space, quick=3000, thorough=30390),
-    SubCheck('funcs', lambda: FUNCS, run_funcs, quick=800, thorough=8100),
-    SubCheck('stepwise', lambda: STEPWISE, run_stepwise, quick=300, thorough=3040),
-    SubCheck('sets', lambda: SETS, run_sets, quick=150, thorough=1520, enumerate=enum_sets, describe='exhaustive for n<=6 (sorted and reversed input, string and int elements) + random orders'),
-    SubCheck('iiv_builders', lambda: IIV, run_iiv_builders, quick=48, thorough=490, enumerate=enum_iiv, describe='n<=6 etas: diagonal, full block, mixed blocks, fixed etas'),
+    SubCheck('roundtrip', lambda: st.one_of(G.space('full', 1, 7), G.space('full', 3, 8)), run_roundtrip, quick=5000, thorough=25320),
+    SubCheck('add', lambda: PAIR, run_add, quick=2000, thorough=10130),
+    SubCheck('sub', lambda: PAIR, run_sub, quick=2000, thorough=10130),
+    SubCheck('eq', lambda: PAIR, run_eq, quick=2000, thorough=10130),
+    SubCheck('eq_statement', lambda: PAIR, run_eq_statement, quick=300, thorough=1520),
+    SubCheck('subset_lnt', lambda: PAIR, run_subset, quick=2000, thorough=10130),
+    SubCheck('model_vs_space', lambda: MODEL_SPACE, run_model_vs_space, quick=3000, thorough=15200),
+    SubCheck('funcs', lambda: FUNCS, run_funcs, quick=800, thorough=4050),
+    SubCheck('stepwise', lambda: STEPWISE, run_stepwise, quick=300, thorough=1520),
+    SubCheck('sets', lambda: SETS, run_sets, quick=150, thorough=760, enumerate=enum_sets, describe='exhaustive for n<=6 (sorted and reversed input, string and int elements) + random orders'),
+    SubCheck('iiv_builders', lambda: IIV, run_iiv_builders, quick=48, thorough=240, enumerate=enum_iiv, describe='n<=6 etas: diagonal, full block, mixed blocks, fixed etas'),
 ]
 
 
